@@ -136,6 +136,11 @@ class Topo:
                 self.ns(self.n + 1, "ip -6 route add blackhole fd00:%x:0::/64" % self.net, check=False)
             if self.spec.get("tcp_sack_off"):
                 self.ns(self.n + 1, "sysctl -qw net.ipv4.tcp_sack=0")
+            if self.spec.get("ecn"):
+                # the client's kernel asks for ECN on the connections it opens (the SACK variant dials through the
+                # kernel): the target's SYN-ACK then carries ECE besides SYN|ACK
+                self.ns(0, "sysctl -qw net.ipv4.tcp_ecn=1")
+                self.ns(self.n + 1, "sysctl -qw net.ipv4.tcp_ecn=1")
             if self.spec.get("port_open"):
                 code = ("import socket,time\ns=socket.socket();s.setsockopt(socket.SOL_SOCKET,socket.SO_REUSEADDR,1);s.bind(('0.0.0.0',%d));s.listen(64)\n"
                         "print('ready',flush=True)\nkeep=[]\nwhile True:\n c,_=s.accept()\n keep.append(c)\n" % self.spec["port"])
@@ -258,6 +263,8 @@ def gen_spec(rng, idx):
             "concurrent_cli": rng.random() < 0.3}
     if spec["tcp_sack_off"]:
         spec["port_open"] = True
+    if rng.random() < 0.3:
+        spec["ecn"] = True
     if rng.random() < 0.2:
         spec["dest_filtered"] = True
         spec["max_ttl_delta"] = rng.choice([1, 2])
@@ -336,7 +343,7 @@ def run_topology(idx, spec):
 
 
 def nontrivial(spec):
-    return spec["routers"] >= 2 and (bool(spec["silent"]) or not spec["port_open"] or spec["tcp_sack_off"] or spec.get("dest_filtered") or spec["queries"] > 1 or spec.get("concurrent_cli"))
+    return spec["routers"] >= 2 and (bool(spec["silent"]) or spec.get("ecn") or not spec["port_open"] or spec["tcp_sack_off"] or spec.get("dest_filtered") or spec["queries"] > 1 or spec.get("concurrent_cli"))
 
 
 def shrink(idx, spec):
@@ -386,7 +393,7 @@ def main():
         n = int(os.environ.get("VERIF_C13_TOPOLOGIES", n))
         specs = [gen_spec(rng, i) for i in range(n)]
         # always include the fixed regression shapes
-        specs[0] = {"routers": 3, "port": 443, "port_open": True, "tcp_sack_off": False, "silent": [2], "max_ttl_delta": 1, "queries": 3, "e2e": 2,
+        specs[0] = {"routers": 3, "port": 443, "port_open": True, "tcp_sack_off": False, "silent": [2], "max_ttl_delta": 1, "queries": 3, "e2e": 2, "ecn": True,
                     "protos": ["icmp", "udp", "tcp:syn", "tcp:sack", "tcp:prefer_sack", "icmp6", "udp6"], "timeout_ms": 500, "concurrent_cli": False}
         if len(specs) > 1:
             specs[1] = {"routers": 2, "port": 8080, "port_open": True, "tcp_sack_off": True, "silent": [], "max_ttl_delta": 0, "queries": 1, "e2e": 1,
